@@ -49,6 +49,7 @@ class ProcRef:
         self.elapsed = 0
         self.expected = None
         self.nfail = 0
+        self.nsd = 0
         self.fin = None
         self.order = []
         self.accepts = 0
@@ -73,6 +74,7 @@ class ProcRef:
             return
         now = mon.env.now
         self.order.append(('sd', 0, now, p))
+        self.nsd += 1
         if not f:
             if not self.up:
                 self.bad('C13.redundant-shutdown', f'{m.name}: shutdown callback at {now} although already down')
@@ -120,7 +122,7 @@ class ProcRef:
         self.last_cycle = self.expected
         fin = self.fin
         if (fin is not None and fin[0] == now and fin[1] is not None and mon.minprio >= PASS_PART
-                and self.nfail == fin[2] and m._resources_for_processing):
+                and self.nfail == fin[2] and self.nsd == fin[3] and m._resources_for_processing):
             mon.c['kept_reservation'] += 1
             if m._reserved_resources is not fin[1]:
                 self.bad('C11.release-reacquire', f'{m.name} released and re-acquired its resources although the next '
@@ -141,7 +143,7 @@ class ProcRef:
         if not self.up:
             self.bad('C13.release-while-down', f'{m.name} finished a part at {now} while down')
         self.part = None
-        self.fin = (now, m._reserved_resources, self.nfail)
+        self.fin = (now, m._reserved_resources, self.nfail, self.nsd)
 
     def integrate(self, dt):
         if self.up:
@@ -886,6 +888,12 @@ class Monitor:
                         and d._reserved_resources is not None:
                     self.bad('C11.idle-holds', f'idle operational {d.name} holds {d._reserved_resources.reserved_resources} '
                              f'when time advances from {now}')
+                if isinstance(d, PartProcessor) and not d.is_operational() and d._part is None \
+                        and d._reserved_resources is not None:
+                    # it finished its part (or never had one) and got no next one: the resources are given back; only
+                    # a shutdown WITH a part in process keeps them
+                    self.bad('C11.down-idle-holds', f'{d.name} is shut down with no part in process but holds '
+                             f'{d._reserved_resources.reserved_resources} when time advances from {now}')
         if 'cycle' in on:
             self.cycle_check(True)
         if 'route' in on:
